@@ -524,6 +524,14 @@ func (c10) Gen(rng *rand.Rand, tier string, emit func(string)) {
 						emit(c10Case("find", p, e, true, false, s, false, 0, -1))
 						emit(c10Case("all", p, e, true, false, s, false, 0, -1))
 					}
+					// strand symmetry (round 3): the complemented pattern, mismatch-only (mirrored hit lists) and with indels
+					// (same existence, same least error count: match_revcomp_indel)
+					if e <= 1 && len(s) > 0 {
+						emit(c10Case("find", p, e, false, true, s, false, 0, -1))
+						if e > 0 {
+							emit(c10Case("find", p, e, true, true, s, false, 0, -1))
+						}
+					}
 				}
 			}
 		}
@@ -1091,6 +1099,21 @@ func (c10) Exec(c string) (string, []Fail) {
 					hasOblig := strings.IndexByte(pat, '#') >= 0 // '#' with indels: the automaton gates ins/del by the obligatory mask, not strand-symmetric, only tied by correspondence
 					if indel && e > 0 && !hasOblig && (len(mir) == 0) != (len(raw) == 0) {
 						fail("find.revcomp-indel"+sigx, "complemented pattern on s: %s; pattern on rc(s), mirrored: %s", c10Hits(raw), c10Hits(mir))
+					}
+					// match_revcomp_indel (round 3): for EVERY error level K a hit with <= K errors exists on one strand iff on the
+					// other, i.e. the least error count over the hits is the same on both strands
+					if indel && e > 0 && !hasOblig && len(mir) > 0 && len(raw) > 0 {
+						minOf := func(hs [][3]int) int {
+							b := hs[0][2]
+							for _, h := range hs {
+								b = min(b, h[2])
+							}
+							return b
+						}
+						if minOf(mir) != minOf(raw) {
+							fail("find.revcomp-indel"+sigx, "least error count: complemented pattern on s %d (%s); pattern on rc(s) %d (%s)", minOf(raw), c10Hits(raw), minOf(mir), c10Hits(mir))
+						}
+						stat(fmt.Sprintf("revcomp-indel:min-err=%d", min(minOf(raw), 3)))
 					}
 					stat("revcomp-symmetry")
 				}
